@@ -3,8 +3,8 @@
    (Gen_C12_Tableau.v from Phreeqc::rk_kinetics, Gen_C12_Step.v from cxxKinetics::Current_step). *)
 From Coq Require Import Reals QArith Qabs ZArith List.
 From IPV Require Import C12.MiniPrelude C12.RK C12.Step C12.Checker C12.Closed.
-From IPV Require Import Gen.Gen_C12_Tableau Gen.Gen_C12_Step Gen.Gen_C12_Restart Gen.Gen_C12_Transport.
-From IPV Require Import C12.Inst C12.RKProofs C12.StepProofs C12.Controller C12.Transfer C12.Restart C12.TransportTime.
+From IPV Require Import Gen.Gen_C12_Tableau Gen.Gen_C12_Step Gen.Gen_C12_Restart Gen.Gen_C12_Transport Gen.Gen_C12_Bind.
+From IPV Require Import C12.Inst C12.RKProofs C12.StepProofs C12.Controller C12.Transfer C12.Restart C12.TransportTime C12.BindModel C12.Bind.
 Import ListNotations.
 Open Scope Q_scope.
 
@@ -273,3 +273,33 @@ Theorem chain_closed_form : forall a0 b0 k1 k2 t, ~ (k2 - k1 == 0)%Q ->
   derivable_pt_lim B t (Q2R k1 * A t - Q2R k2 * B t) /\ B 0 = Q2R b0.
 Proof. exact chain_solves. Qed.
 Print Assumptions chain_closed_form.
+
+(* rate k0*M0 + k1*M where M0 is the user-defined -m0 (constant for the life of the reactant) and m the amount the
+   integration starts from (may differ from m0: -m, later incremental steps / shifts, re-used KINETICS) *)
+Theorem m0_dependent_closed_form : forall m0 m k0 k1 t, ~ (k1 == 0)%Q ->
+  let M := cf_R (cf_m0dep m0 m k0 k1) in
+  derivable_pt_lim M t (- (Q2R k0 * Q2R m0 + Q2R k1 * M t)) /\ M 0 = Q2R m.
+Proof. exact m0dep_solves. Qed.
+Print Assumptions m0_dependent_closed_form.
+
+(* ---- what the rate program sees (calc_kinetic_reaction copies + PBasic::factor reads, both regenerated) -------------- *)
+Close Scope R_scope.
+From Coq Require Import String.
+Open Scope string_scope.
+
+(* for every history of a reactant (set_initial_moles / integrations in any order and number: later incremental steps, shifts,
+   re-used KINETICS, RUN_CELLS) the BASIC function M0 returns the user-defined -m0, M the current amount, TIME the time step *)
+Theorem rate_program_sees_user_m0 : forall ops c ts,
+  let now := history c ops in
+  basic_value g_rate_bind g_basic_reads now ts "tokm0" = Some (r_m0 c) /\
+  basic_value g_rate_bind g_basic_reads now ts "tokm" = Some (r_m now) /\
+  basic_value g_rate_bind g_basic_reads now ts "toktime" = Some ts.
+Proof. exact rate_program_sees. Qed.
+Print Assumptions rate_program_sees_user_m0.
+
+Theorem rate_program_reads_own_parameters :
+  lookup "tokparm" g_basic_reads = Some ["count_rate_p"; "rate_p"] /\
+  lookup "rate_p" g_rate_bind = Some (FromComp "Get_d_params") /\
+  lookup "count_rate_p" g_rate_bind = Some (SizeOf "Get_d_params").
+Proof. exact rate_program_parameters. Qed.
+Print Assumptions rate_program_reads_own_parameters.
